@@ -13,12 +13,14 @@ import (
 	"time"
 
 	"verifharness/internal/isolate"
+	"verifharness/metadata"
 	"verifharness/piecestore"
 	"verifharness/wire"
 )
 
 var bindings = map[string]func(in []byte) any{
 	"piecestore": piecestore.Replay,
+	"metadata":   metadata.Replay,
 	"wire":       wire.Handle,
 }
 
